@@ -11,6 +11,8 @@ pub open spec fn lex_post<T>(o: RView, n: RView, r: Result<T>) -> bool {
     &&& (is_io(r) || advance(o.pending, n.pending))
     // after a value the byte that follows it is the current byte
     &&& (r is Ok ==> (n.cur is None ==> n.pending.len() == 0))
+    // the fatal IoError is reported ONLY when a read failed: on a source without read failures no parsing function ever returns it
+    &&& (is_io(r) ==> has_fault(o.pending))
 }
 // a value or a recoverable error has consumed at least one byte: the read loop always makes progress
 pub open spec fn progress<T>(o: RView, n: RView, r: Result<T>) -> bool { !is_io(r) ==> n.pending.len() < o.pending.len() }
